@@ -256,6 +256,27 @@ theorem durHook_foreign_source_witness :
 theorem exponentTooLarge_never_panics (str : Bytes) : (Decode.exponentTooLarge str).isPanic = false :=
   Decode.exponentTooLarge_noPanic str
 
+/-- Whatever reaches `resource.ParseQuantity` is exactly the guarded string, and the guard answered
+"not too large" for it: no decimal exponent beyond ±1000 reaches the parser. -/
+theorem quantity_arg_guarded (str a : Bytes) (h : Decode.quantityCall str = .ok a) :
+    a = str ∧ Decode.exponentTooLarge a = .ok false := by
+  unfold Decode.quantityCall at h
+  cases hb : Decode.exponentTooLarge str with
+  | ok big =>
+    rw [hb, bind_ok] at h
+    cases big
+    · simp only [Bool.false_eq_true, if_false] at h
+      cases h
+      exact ⟨rfl, hb⟩
+    · simp at h
+  | err e => rw [hb] at h; simp [Outcome.bind] at h
+  | panic w => rw [hb] at h; simp [Outcome.bind] at h
+
+example : Decode.quantityCall [49, 101, 51] = .ok [49, 101, 51] := by decide
+-- with a trailing newline the suffix is not a decimal exponent: the guard lets it through and the SAME
+-- bytes (newline included) reach the parser, which rejects them; a parser fed the trimmed string would not
+example : Decode.quantityCall [49, 101, 45, 57, 57, 57, 57, 57, 57, 57, 57, 57, 10] = .ok [49, 101, 45, 57, 57, 57, 57, 57, 57, 57, 57, 57, 10] := by decide
+
 -- "1e-999999999" is refused, "5Ei" and "1e3" go on to the parser
 example : Decode.exponentTooLarge [49, 101, 45, 57, 57, 57, 57, 57, 57, 57, 57, 57] = .ok true := by decide
 example : Decode.exponentTooLarge [53, 69, 105] = .ok false := by decide
@@ -349,7 +370,7 @@ theorem cited_theorems_exist :
     Inventory.citedHere.all (· ∈ thm_names% [parseISO8601_never_panics, parseKey_never_panics,
       parseSymmetric_never_panics, chainLoop_never_panics, hookChain_never_panics,
       decodeString_never_panics, normalize_never_panics, decodeCertificates_terminates,
-      exponentTooLarge_never_panics]) = true := by decide +kernel
+      exponentTooLarge_never_panics, quantity_arg_guarded]) = true := by decide +kernel
 
 /-- The dapr/kit functions that panic on part of their domain (closed under "hands its own parameter
 on without a `switch` on it") are exactly the two table look-ups of package crypto and the six
